@@ -57,7 +57,7 @@ def build(rp, nsides):
     try:
         for s in range(nsides):
             sess = object.__new__(rp.Session)
-            sess._module  = 'client' if s == 0 else 'pilot.%04d' % s
+            sess._module  = mod_name(s)
             sess._role    = sess._PRIMARY if s == 0 else sess._AGENT_0
             sess._log     = rpload.NullLog()
             sess._prof    = rpload.NullLog()
@@ -78,14 +78,18 @@ def build(rp, nsides):
     return net, sessions
 
 
+# side names: pilot uids are user-definable, so names may contain each other
+NAMES = ['client', 'pilot.1', 'pilot.10', 'pilot.100', 'pilot', 'pilot.1.a', 'p', 'client.pilot.1', 'lot.1']
+
+
 def mod_id(m):
     if m is None: return None
-    return 0 if m == 'client' else int(m.split('.')[1])
+    return NAMES.index(m)
 
 
 def mod_name(i):
     if i is None: return None
-    return 'client' if i == 0 else 'pilot.%04d' % i
+    return NAMES[i]
 
 
 def to_msg(m):
@@ -167,7 +171,7 @@ def run(ctx):
 
     # -- topologies --------------------------------------------------------------
     ops, impl = [], []
-    nmax = ctx.n(5, 8)
+    nmax = ctx.n(5, len(NAMES))
     for nsides in range(1, nmax + 1):
         sides = list(range(nsides))
         for side in sides:
@@ -216,7 +220,7 @@ def run(ctx):
                 'forwarder directions and 3 modules; all topologies of 1 client + 0..%d pilots x every originating side x '
                 'origin marker x fwd x {control, state} channel; plus random message sequences; non-trivial = fwd flag set' % (nmax - 1))
     ctx.assume += ['ZMQ transport is a lossless bus delivering a copy to every subscriber (proxy.py creates plain PubSub bridges)',
-                   'every side has a distinct module name (client / pilot id)']
+                   'every side has a distinct module name (client / pilot uid); names containing each other are included (pilot.1, pilot.10, ...)']
     ctx.trusted += ['harness/props/c16.py in-memory pubsub network replacing ru.zmq.Publisher/Subscriber']
 
 
